@@ -319,6 +319,12 @@ def r4_loss_association(ctx: Context, v: CalibrateView) -> None:
         if benv and not iter_ok and any(src(c_).replace(" ", "") in (f"len({s_name})", f"{s_name}.shape[0]") for c_ in counts):
             iter_ok = True      # index loop over the series: the element is spelled S[i] at the call
             elem_forms |= {f"{s_name}[{nm}]" for nm, ve in benv.items() if src(ve) == IDX}
+        # a local bound (once) inside the loop to the element is the element
+        if loop is not None:
+            for s_ in ast.walk(loop):
+                if isinstance(s_, ast.Assign) and len(s_.targets) == 1 and isinstance(s_.targets[0], ast.Name) and src(s_.value) in elem_forms \
+                        and sum(1 for x in ast.walk(loop) if isinstance(x, ast.Name) and x.id == s_.targets[0].id and isinstance(x.ctx, ast.Store)) == 1:
+                    elem_forms.add(s_.targets[0].id)
         ctx.check(iter_ok, "R4.iteration", "Calibrator.calibrate:loss-iteration", f"one loss per element of {s_name}, in order",
                   f"losses are computed while iterating `{src(it)}`, the recorded series are `{s_name}`", v.cal, it)
         # only a guard that can skip the loss call itself matters (a re-raising handler or a log line inside the loop does not)
